@@ -673,7 +673,12 @@ def mutate_targeted(rng, doc):
                            ("migration", "end_time", -1), ("pulse", "dest", "")):
         emit("defaults.unused-invalid", lambda d, s=sect, k=key, v=val: d.__setitem__("defaults", {s: {k: v}}))
     rng.shuffle(out)
-    return out
+    # one mutant of every kind first (so that truncating the list never drops a rule), then the rest
+    seen, first, rest = set(), [], []
+    for kind, d in out:
+        (rest if kind in seen else first).append((kind, d))
+        seen.add(kind)
+    return first + rest
 
 
 def sawtooth_family(rng):
